@@ -27,6 +27,7 @@ import (
 	"verifmc/internal/ops"
 	"verifmc/internal/vnode"
 	"verifmc/internal/xs"
+	"verifmc/props/c14"
 )
 
 // ---------------------------------------------------------------------------------------------------------------------
@@ -497,8 +498,26 @@ func run(c *xs.Ctx, r *xs.Result) {
 			reorgPart(c, r, &rc)
 			return
 		}
+		var sr struct {
+			Part     string `json:"part"`
+			Scenario string `json:"scenario"`
+			Schedule []int  `json:"schedule"`
+		}
+		if err := json.Unmarshal(c.Replay, &sr); err == nil && sr.Part == "sched" {
+			c14.ReplayScenario(c, r, sr.Scenario, "C03", sr.Schedule)
+			return
+		}
 	} else if c.NShards <= 1 || c.Shard == c.NShards-1 {
 		reorgPart(c, r, nil)
+	} else if c.Shard == c.NShards-2 {
+		// "ever accepted", between threads: a block that acknowledges the frontier arrives by gossip while sync switches the
+		// node to a branch without that momentum - every schedule with at most one preemption (two in the thorough tier) of
+		// C14's scenario S4; afterwards the pool holds no block a node on the final chain refuses
+		bound := 1
+		if c.Thorough() {
+			bound = 2
+		}
+		c14.RunScenario(c, r, "S4-gossip-vs-switch", "C03", bound)
 	}
 	w := buildWorld(c)
 	setRegime(true)
